@@ -149,6 +149,31 @@ class History:
             k = self.rng.randint(0, n)
             tm.move_triggers(ids, k); self._rec("move", ids, k)
 
+    def op_copy(self):
+        rng = self.rng
+        tm = self.scn.trigger_manager
+        if not tm.triggers or len(tm.triggers) > 12:
+            return
+        i = rng.randrange(len(tm.triggers))
+        r = rng.random()
+        if r < 0.5:
+            after = rng.random() < 0.5
+            tm.copy_trigger(i, append_after_source=after); self._rec("copy_trigger", i, after)
+        elif r < 0.7:
+            tm.copy_trigger_tree(i); self._rec("copy_trigger_tree", i)
+        else:
+            players = sorted(rng.sample(range(1, 9), rng.randint(1, 2)))
+            fp = rng.randint(1, 8)
+            from AoE2ScenarioParser.datasets.players import PlayerId
+            tm.copy_trigger_per_player(PlayerId(fp), i, create_copy_for_players=[PlayerId(p) for p in players])
+            self._rec("copy_trigger_per_player", fp, i, players)
+
+    def op_variant(self):
+        # the scenario variant is a public attribute of the scenario; Return of Rome needs scenario version >= 1.49
+        choices = ["aoe2", "legacy"] + (["ror"] if self.vt >= (1, 49) else [])
+        v = self.rng.choice(choices)
+        self.scn.variant = v; self._rec("variant", v)
+
     def op_add_variable(self):
         tm = self.scn.trigger_manager
         used = {v.variable_id for v in tm.variables}
@@ -207,7 +232,7 @@ class History:
             v = self.rng.randint(0, 100) if a != "elevation" else self.rng.randint(0, 7)
             if a == "layer":
                 v = self.rng.choice([-1, 0, 5, 40])
-            setattr(t, a, v); self._rec("set_tile", t.index, a, v)
+            setattr(t, a, v); self._rec("set_tile", t.i, a, v)
 
     def op_player(self):
         rng = self.rng
@@ -279,7 +304,7 @@ class History:
         self.scn.xs_manager.script_name = v; self._rec("script_name", v)
 
     OPS = [("op_add_trigger", 8), ("op_add_effect", 5), ("op_add_condition", 3), ("op_remove_trigger", 4), ("op_remove_component", 3),
-           ("op_set_trigger_attr", 4), ("op_reorder", 3), ("op_add_variable", 2), ("op_add_unit", 6), ("op_remove_unit", 3), ("op_set_unit", 4),
+           ("op_set_trigger_attr", 4), ("op_reorder", 3), ("op_copy", 3), ("op_variant", 1), ("op_add_variable", 2), ("op_add_unit", 6), ("op_remove_unit", 3), ("op_set_unit", 4),
            ("op_map", 5), ("op_player", 8), ("op_active_players", 1), ("op_message", 3), ("op_option", 3), ("op_xs", 1)]
 
     def step(self):
